@@ -99,6 +99,7 @@ type Node struct {
 	Pow      *pow.Service
 	Miner    *account.Account // receives coinbases of factory blocks
 	nonce    uint64
+	opt      Options
 	glue     bool
 	Events   []Event // connect / disconnect notifications since last Drain
 	sub      bool
@@ -118,6 +119,39 @@ func New(opt Options) (*Node, error) {
 	if err != nil {
 		return nil, err
 	}
+	return build(opt, dir)
+}
+
+// Restart closes the node's database and builds the node again on the same data
+// directory, the way a restarted process does (blockchain.New, BlockChain.Init,
+// InitCheckpoint): in-memory state (block index, side-chain block cache, orphans,
+// transaction pool, DPoS / CR state) is rebuilt from what is stored.
+func (n *Node) Restart() error {
+	if current == n {
+		current = nil
+	}
+	func() {
+		defer func() { recover() }()
+		n.Store.Close()
+	}()
+	func() {
+		// the legacy leveldb handle is closed separately (ChainStore.Close leaves it open)
+		defer func() { recover() }()
+		n.Store.CloseLeveldb()
+	}()
+	m, err := build(n.opt, n.Dir)
+	if err != nil {
+		return err
+	}
+	miner, nonce := n.Miner, n.nonce
+	*n = *m
+	n.Miner, n.nonce = miner, nonce
+	current = n
+	return nil
+}
+
+func build(opt Options, dir string) (*Node, error) {
+	var err error
 	// every node gets its own parameter object; the package-level
 	// config.DefaultParams (read by a few helpers) is set once in InitGlobals
 	params := config.GetDefaultParams().RegNet().InstantBlock()
@@ -136,7 +170,7 @@ func New(opt Options) (*Node, error) {
 	if opt.Tweak != nil {
 		opt.Tweak(params)
 	}
-	n := &Node{Dir: dir, Params: params, glue: opt.PoolGlue}
+	n := &Node{Dir: dir, Params: params, glue: opt.PoolGlue, opt: opt}
 	n.Ckp = checkpoint.NewManager(params)
 	n.Ckp.SetDataPath(filepath.Join(dir, "checkpoints"))
 	ledger := &blockchain.Ledger{}
